@@ -881,6 +881,8 @@ func (e *Engine) strLen(st *State, s *Term) *Term {
 	}
 	r := tb.App("strlen", SInt, s)
 	e.assume(st, tb.Le(tb.Int(0), r))
+	// the empty string is the only string of length 0
+	e.assume(st, tb.Implies(tb.Eq(r, tb.Int(0)), tb.Eq(s, tb.Int(e.strID("")))))
 	return r
 }
 
@@ -940,7 +942,7 @@ func (e *Engine) sliceOp(st *State, x *ssa.Slice) Val {
 			arr = e.newRef(st)
 			e.assume(st, tb.Eq(tb.App("viewtok_"+typeKey(bt.Elem()), SInt, arr), tok))
 			st.Ghost["view:"+fmt.Sprint(arr.ID)] = tok
-			st.Views[arr.ID] = viewOrigin{px: *px, T: bt.Elem()}
+			st.Views[arr.ID] = viewOrigin{px: *px, T: bt.Elem(), N: n}
 			// element values are functions of the token
 			el := at.Elem()
 			if len(Leaves(el)) == 1 && Leaves(el)[0].Sort == SInt {
@@ -948,6 +950,8 @@ func (e *Engine) sliceOp(st *State, x *ssa.Slice) Val {
 				h := e.H(st, cl, SArr2I)
 				row := tb.App("unpack_"+typeKey(bt.Elem()), SArrI, tok)
 				st.Heap[cl] = tb.Store(h, arr, row)
+				// the token is determined by its elements: pack(unpack(tok)) == tok
+				e.assume(st, tb.Eq(tb.App("pack_"+typeKey(bt.Elem()), SInt, row, tb.Int(0), tb.Int(n)), tok))
 			}
 		}
 		lot, hit := tb.Int(0), tb.Int(n)
@@ -1033,6 +1037,7 @@ func (e *Engine) sliceOp(st *State, x *ssa.Slice) Val {
 type viewOrigin struct {
 	px PtrX
 	T  types.Type
+	N  int64 // array length
 }
 
 func (e *Engine) makeInterface(st *State, v Val, T types.Type) Val {
@@ -1200,6 +1205,7 @@ func (e *Engine) convert(st *State, x *ssa.Convert) Val {
 		row := tb.Select(e.H(st, "E:uint8", SArr2I), v.slArr())
 		r := tb.App("bytes2str", SInt, row, v.slOff(), v.slLen())
 		e.assume(st, tb.Eq(tb.App("strlen", SInt, r), v.slLen()))
+		e.assume(st, tb.Implies(tb.Eq(v.slLen(), tb.Int(0)), tb.Eq(r, tb.Int(e.strID("")))))
 		return scalar(r)
 	}
 	if _, isPtr := to.Underlying().(*types.Pointer); isPtr {
